@@ -107,3 +107,26 @@ Theorem C11_allowed_consistent_generated : forall L p q,
   granted (gen_permits L [q; everyone] p) = true.
 Proof. exact gen_allowed_consistent. Qed.
 Print Assumptions C11_allowed_consistent_generated.
+
+(* ---- the deprecated public wrapper ACLAuthorizationPolicy (regenerated delegation) *)
+Theorem C11_generated_policy_permits_is_model : forall L ps p,
+  gen_policy_permits L ps p = permits L ps p.
+Proof. exact gen_policy_permits_is_model. Qed.
+Print Assumptions C11_generated_policy_permits_is_model.
+
+Theorem C11_generated_policy_principals_allowed_is_model : forall L p,
+  gen_policy_principals_allowed L p = principals_allowed L p.
+Proof. exact gen_policy_principals_allowed_is_model. Qed.
+Print Assumptions C11_generated_policy_principals_allowed_is_model.
+
+Theorem C11_policy_permits_first_match_generated : forall L ps p,
+  granted (gen_policy_permits L ps p) = spec_granted L ps p.
+Proof. exact gen_policy_permits_first_match. Qed.
+Print Assumptions C11_policy_permits_first_match_generated.
+
+Theorem C11_policy_allowed_consistent_generated : forall L p q,
+  wf_lineage L = true ->
+  In q (gen_policy_principals_allowed L p) ->
+  granted (gen_policy_permits L [q; everyone] p) = true.
+Proof. exact gen_policy_allowed_consistent. Qed.
+Print Assumptions C11_policy_allowed_consistent_generated.
